@@ -20,20 +20,25 @@ fn is_git_space(c: u8) -> bool {
 /// git 2.39 `parse_value()` on the value text as written (`src` keeps `\`+LF continuations).
 /// `ws_verbatim`: keep unquoted interior blanks as written (git >= 2.45 and gitoxide) instead of one SP per blank.
 /// `bs_pops`: `\b` removes the previous output byte (gitoxide) instead of emitting BS.
-fn model_value(src: &[u8], ws_verbatim: bool, bs_pops: bool) -> Vec<u8> {
+fn model_value3(src: &[u8], ws_verbatim: bool, bs_pops: bool, keep_leading: bool) -> Vec<u8> {
     let mut out = Vec::new();
     let mut pending: Vec<u8> = Vec::new();
     let mut quote = false;
+    // something (a quote, an escape) was seen already
+    let mut touched = false;
     let mut i = 0;
     while i < src.len() {
         let c = src[i];
         i += 1;
+        if !is_git_space(c) {
+            touched = true;
+        }
         if c == b'\n' {
             // only reachable inside quotes in texts git accepts; stop like git does
             break;
         }
         if is_git_space(c) && !quote {
-            if !out.is_empty() {
+            if !out.is_empty() || (keep_leading && c != b'\r') || (keep_leading && touched) {
                 pending.push(c);
             }
             continue;
@@ -70,6 +75,10 @@ fn model_value(src: &[u8], ws_verbatim: bool, bs_pops: bool) -> Vec<u8> {
         out.push(c);
     }
     out
+}
+
+fn model_value(src: &[u8], ws_verbatim: bool, bs_pops: bool) -> Vec<u8> {
+    model_value3(src, ws_verbatim, bs_pops, false)
 }
 
 fn lower(b: &[u8]) -> Vec<u8> {
@@ -411,7 +420,7 @@ fn bool_sig(v: &[u8]) -> &'static str {
     }
 }
 
-fn main() {
+pub fn main() {
     let mut ck = Check::new("C27", "exploration");
     ck.rule("Config files from the C26 grammar restricted to what git accepts (git is the filter; rejected texts are discarded), compared entry by entry with `git config --list -z`, then per key through raw_values/raw_value/string/boolean lookups with git's canonical (lower-cased) key, and through 0-3 case-permuted key strings answered by real `git config --get-all`. Typed sub-check: files with one value per key from boolean/integer/path classes (words, suffixes, i32/i64 edges, C prefixes, junk, implicit, empty, ~ and %(prefix) paths, random integer syntax) queried with --type=bool/int/path. Non-trivial: a value with quotes, an escape, a continuation or an inner whitespace run; or a query that differs from the definition in case; typed: every case. Distinct by hash of the file text and the queries.");
     ck.assume(&format!("oracle: {} (values, typed reads, case rules)", Git::version()));
@@ -516,15 +525,32 @@ fn main() {
                         let msg = format!("{} = {:?} for gitoxide, {:?} for git (value text {:?})", show(&g.full_key()), show(&e.value), show(gv), show(&e.src));
                         if e.ill_formed {
                             f.add("continuation-at-eof-value", msg);
-                        } else if e.value == model_value(&e.src, true, false) {
-                            f.add("inner-whitespace-verbatim", msg);
-                        } else if e.value == model_value(&e.src, false, true) {
-                            f.add("backslash-b-deletes-char", msg);
-                        } else if e.value == model_value(&e.src, true, true) {
-                            f.add("backslash-b-deletes-char", msg.clone());
-                            f.add("inner-whitespace-verbatim", msg);
+                        } else if e.src.starts_with(b"\r") && e.value.trim_start_with(|c| c == '\r') == gv.as_slice() {
+                            f.add("leading-cr-not-skipped", msg);
                         } else {
-                            f.add("value-differs", msg);
+                            // which of gitoxide's three known deviations from git 2.39 explain the value?
+                            let mut explained = false;
+                            for mask in 1..8u8 {
+                                let (ws, bs, lead) = (mask & 1 != 0, mask & 2 != 0, mask & 4 != 0);
+                                if e.value == model_value3(&e.src, ws, bs, lead) {
+                                    if ws {
+                                        f.add("inner-whitespace-verbatim", msg.clone());
+                                    }
+                                    if bs {
+                                        f.add("backslash-b-deletes-char", msg.clone());
+                                    }
+                                    if lead {
+                                        // git drops unquoted blanks as long as the value is empty: after a continuation
+                                        // (`k = \\<LF>  v`), after an empty quoted part (`k = "" v`) or after `\\b`
+                                        f.add("leading-whitespace-after-continuation", msg.clone());
+                                    }
+                                    explained = true;
+                                    break;
+                                }
+                            }
+                            if !explained {
+                                f.add("value-differs", msg);
+                            }
                         }
                     }
                 }
@@ -547,7 +573,7 @@ fn main() {
                             if s.legacy {
                                 let sub = s.sub.as_deref().unwrap_or_default();
                                 legacy_upper |= sub != lower(sub).as_slice();
-                                multi_dot |= sub.contains(&b'.');
+                                multi_dot |= sub.contains(&b'.') || s.name.contains(&b'.');
                             }
                             value_known_diff |= !e.implicit && Some(&e.value) != o.value.as_ref();
                         }
@@ -595,7 +621,10 @@ fn main() {
                     c.label("last-definition-implicit");
                     match file.boolean_by(section, sub, key) {
                         Some(Ok(true)) => {}
-                        other => f.add("implicit-boolean", format!("boolean_by({section:?}, {sub:?}, {key:?}) = {other:?} although the last definition is implicit (git: true) in {}", show(&doc.text))),
+                        other => f.add(
+                            if flat.iter().zip(&gl).any(|((_, e), o)| same(o) && e.implicit_trailing_ws) { "implicit-key-trailing-whitespace" } else { "implicit-boolean" },
+                            format!("boolean_by({section:?}, {sub:?}, {key:?}) = {other:?} although the last definition is implicit (git: true) in {}", show(&doc.text)),
+                        ),
                     }
                 }
             }
